@@ -138,7 +138,7 @@ pub fn payload_for(rng: &mut Rng, max: usize) -> Vec<u8> {
         1 => 1,
         2 | 3 => rng.range(2, 400),
         4 => rng.range(400, 9000),
-        _ => rng.range(0, max),
+        _ => rng.range(0, if crate::framework::small_mode() { max.min(1500) } else { max }),
     };
     match rng.below(4) {
         0 => rng.bytes(len),                                  // incompressible
@@ -457,6 +457,11 @@ fn run_bodyflip(ctx: &mut Ctx, rng: &mut Rng, _index: u64) {
 }
 
 fn run_big(ctx: &mut Ctx, rng: &mut Rng, index: u64) {
+    if crate::framework::small_mode() {
+        // too slow under an interpreter: covered by the native run
+        ctx.gray();
+        return;
+    }
     let len = *rng.pick(&[65_536usize, 200_000, 1 << 20]);
     let payload = match index % 3 {
         0 => vec![b'z'; len],
